@@ -151,6 +151,28 @@ func (b *trackedBody) Read(p []byte) (int, error) {
 
 func (b *trackedBody) Close() error { b.release(); return nil }
 
+// hijackedBody is the body of a 101 response: a connection on which the peer sends nothing.
+type hijackedBody struct {
+	s      *scripted
+	closed chan struct{}
+	once   sync.Once
+}
+
+func (b *hijackedBody) Read(p []byte) (int, error) {
+	<-b.closed
+	return 0, errors.New("read on a closed connection")
+}
+func (b *hijackedBody) Write(p []byte) (int, error) { return len(p), nil }
+func (b *hijackedBody) Close() error {
+	b.once.Do(func() {
+		close(b.closed)
+		b.s.mu.Lock()
+		b.s.open--
+		b.s.mu.Unlock()
+	})
+	return nil
+}
+
 var errExhausted = errors.New("scripted transport: the server's answers are exhausted")
 
 func (s *scripted) RoundTrip(req *http.Request) (*http.Response, error) {
@@ -190,6 +212,14 @@ func (s *scripted) RoundTrip(req *http.Request) (*http.Response, error) {
 		if len(body) > 0 {
 			resp.ContentLength = int64(len(body)) - 1
 		}
+	}
+	if r.Status == 101 && h.Get("Upgrade") != "" {
+		// as net/http delivers a protocol switch: the body is the connection, on which nothing more
+		// arrives; a Read returns only when the body is closed
+		s.open++
+		resp.ContentLength = 0
+		resp.Body = &hijackedBody{s: s, closed: make(chan struct{})}
+		return resp, nil
 	}
 	if req.Method == "HEAD" || r.Status == 204 || r.Status == 304 || r.Status < 200 {
 		body = nil // as net/http delivers them: such responses have no body
@@ -494,8 +524,12 @@ func genScript(t *rapid.T) Script {
 		switch rapid.IntRange(0, 9).Draw(t, "faultKind") {
 		case 0, 1: // well-behaved
 		case 2, 3: // status
-			r.Status = rapid.SampledFrom([]int{200, 201, 202, 204, 206, 299, 301, 302, 304, 400, 401, 403, 404, 405, 416, 429, 500, 503, 599}).Draw(t, "status")
+			r.Status = rapid.SampledFrom([]int{200, 201, 202, 204, 206, 299, 301, 302, 304, 400, 401, 403, 404, 405, 416, 429, 500, 503, 599, 101, 101}).Draw(t, "status")
 			r.Fault = "status"
+			if r.Status == 101 {
+				// an unsolicited protocol switch: net/http then hands over the connection itself as the body
+				r.Headers = map[string]string{"Connection": "Upgrade", "Upgrade": "websocket"}
+			}
 		case 4, 5, 6: // one header
 			name := rapid.SampledFrom([]string{"Location", "Range", "Content-Range", "Docker-Content-Digest", "Link", "Content-Type", "OCI-Chunk-Min-Length"}).Draw(t, "header")
 			vals := map[string][]string{
@@ -542,7 +576,7 @@ func genScript(t *rapid.T) Script {
 var prop = &vt.Prop[Script]{
 	ID:   "C18",
 	Name: "ClientAnyResponse",
-	Rule: "client operation = each client method (reads drained to EOF, listings drained, chunked writer: open / Write small / Write 100 KiB / Size / Close / Commit / Size+ID / Commit again / Write / Cancel / Close, resume with explicit offset and with -1) x ListPageSize in {-5,-1,0,1,2,1000} x chunk hint x {plain transport, ociauth's standard transport whose first exchange is a 401 Bearer challenge with an error body and a token request to the registry's own host, answered with a proper token document or with null, {}, [], wrongly typed, overflowing, empty, truncated or huge bodies} x a script of 0-8 responses, each the expected answer distorted in one dimension: status from every class (2xx the operation does not expect, 3xx without Location, 4xx, 5xx), one of Location / Range / Content-Range / Docker-Content-Digest / Link (incl. well-formed targets followed by parameters of every shape) / Content-Type / OCI-Chunk-Min-Length absent / empty / malformed / contradictory / huge, body empty / truncated / wrong-shape / garbage / null / 2 MiB, Content-Length unknown / too long / too short; served by a scripted RoundTripper that sets Response.Request and fails every request after the script is exhausted; oracle = no panic (also none when a returned error is printed, unwrapped and asked for its code, detail, status and response body), every individual API call returns within 10 s, issues at most (answers still unconsumed) + 1 requests, and never sends a request while it holds the unread body of an earlier response of the same call (that hangs under a one-connection-per-host transport), and when it has returned and its readers are closed no response body is left unclosed and unread; non-trivial = a distorted response was actually consumed; distinct = (operation, page size, consumed fault vector)",
+	Rule: "client operation = each client method (reads drained to EOF, listings drained, chunked writer: open / Write small / Write 100 KiB / Size / Close / Commit / Size+ID / Commit again / Write / Cancel / Close, resume with explicit offset and with -1) x ListPageSize in {-5,-1,0,1,2,1000} x chunk hint x {plain transport, ociauth's standard transport whose first exchange is a 401 Bearer challenge with an error body and a token request to the registry's own host, answered with a proper token document or with null, {}, [], wrongly typed, overflowing, empty, truncated or huge bodies} x a script of 0-8 responses, each the expected answer distorted in one dimension: status from every class (an unsolicited 101 protocol switch, whose body is the silent connection itself; 2xx the operation does not expect, 3xx without Location, 4xx, 5xx), one of Location / Range / Content-Range / Docker-Content-Digest / Link (incl. well-formed targets followed by parameters of every shape) / Content-Type / OCI-Chunk-Min-Length absent / empty / malformed / contradictory / huge, body empty / truncated / wrong-shape / garbage / null / 2 MiB, Content-Length unknown / too long / too short; served by a scripted RoundTripper that sets Response.Request and fails every request after the script is exhausted; oracle = no panic (also none when a returned error is printed, unwrapped and asked for its code, detail, status and response body), every individual API call returns within 10 s, issues at most (answers still unconsumed) + 1 requests, and never sends a request while it holds the unread body of an earlier response of the same call (that hangs under a one-connection-per-host transport), and when it has returned and its readers are closed no response body is left unclosed and unread; non-trivial = a distorted response was actually consumed; distinct = (operation, page size, consumed fault vector)",
 	Gen:  genScript,
 	Run:  run,
 }
